@@ -13,7 +13,7 @@ META = {
     'functions': ['xrspatial.classify.' + f for f in ('binary', '_cpu_binary', 'reclassify', '_cpu_bin', '_bin', 'quantile', '_run_quantile', 'equal_interval',
                                                       '_run_equal_interval', 'natural_breaks', '_run_natural_break', '_run_jenks', '_run_numpy_jenks_matrices')],
     'bounds': {'quick': 'reclassify: every bin count 1..6, bins symbolic strictly ascending, value symbolic (NaN/+-inf allowed), new values symbolic; binary: <=3 listed values, '
-                        'cells NaN/inf/finite, float and int dtypes; equal_interval / quantile: rasters of 3 and 4 cells (NaN allowed), k in {2,3}; natural_breaks: 3 and 4 cells, k=2; NOT symbolic: equal_interval on 144 small integer ranges x k in {2,3,5,7} executed with real float arithmetic (enumeration of the np.arange overshoot / last-cut rounding cases that exact reals cannot reach)',
+                        'cells NaN/inf/finite, float and int dtypes; equal_interval / quantile: rasters of 3 and 4 cells (NaN allowed), k in {2,3}, plus int8 / int16 rasters of 3 cells over the whole range of the dtype (typed NumPy scalars: max - min may wrap), numpy and dask; natural_breaks: 3 and 4 cells, k=2; NOT symbolic: equal_interval on 144 small integer ranges x k in {2,3,5,7} executed with real float arithmetic (enumeration of the np.arange overshoot / last-cut rounding cases that exact reals cannot reach)',
                'thorough': 'reclassify up to 8 bins; equal_interval / quantile 5 cells k in {2,3,4}; natural_breaks 5 cells k = 2 (class range / order claims; the optimality claim is decided on 3 cells (ties allowed) and for one tied pair on 4 cells - the general 4-cell and all 5-cell cases come back unknown from z3 under load, which would make the run inconclusive)'},
     'stubs': ['numba.jit = identity', 'np.percentile = sorting network + linear interpolation', 'np.unique / sort = forking insertion sort', 'print / warnings = no-op'],
     'outside': ['single-precision rounding of break values (the guards bins[-1] = max exist for floats; in exact arithmetic they are not needed, so a mutant deleting them is invisible here)',
